@@ -429,6 +429,7 @@ type ghostStmt struct {
 	when   *CExpr
 	assert *CExpr
 	choose []string
+	assume *CExpr
 	label  string
 	clause *Clause
 }
@@ -459,6 +460,16 @@ func (vc *VC) parseGhostStmts() {
 			g.when = w
 		}
 		body := strings.TrimSpace(m[5])
+		if c.Kw == "ghost" && strings.HasPrefix(body, "assume ") {
+			// an explicit, reported assumption (never a proof step): used for "machine arithmetic is large enough" facts
+			e, err := parseCExpr(strings.TrimSpace(body[len("assume "):]))
+			if err != nil {
+				fail("%s:%d: %v", c.File, c.Line, err)
+			}
+			g.assume = e
+			vc.ghostAnchors = append(vc.ghostAnchors, g)
+			continue
+		}
 		if c.Kw == "ghost" && strings.HasPrefix(body, "choose ") {
 			// choose <ghost lvalues> such that <definitional expr>
 			i := strings.Index(body, " such that ")
@@ -579,6 +590,13 @@ func (vc *VC) execGhost(st *State, g *ghostStmt, callRes ...Val) {
 	cond := tTrue
 	if g.when != nil {
 		cond = ec.evalBool(g.when)
+	}
+	if g.assume != nil {
+		ec2 := st.evalCtx()
+		ec2.names = names
+		st.assume(tImp(cond, ec2.evalBool(g.assume)))
+		vc.assumptionsUsed["assumed in "+vc.key+" ("+g.anchor+" "+g.callee+"): "+g.assume.String()] = true
+		return
 	}
 	if g.choose != nil {
 		// ghost choice: the chosen ghost locations get fresh values constrained by a definitional condition
